@@ -1,8 +1,9 @@
 /* Contracts for the native runtime container src/runtime/dyn_array.c (C20.dyn.*, C08.nat.dyn.*).
  *
  * Element kinds are a case split: -DVERIF_KIND=<ElementType value> pins arr->elem_type in the
- * precondition (strength X over kinds); lengths, capacities, indices, values, struct sizes are
- * full-domain symbolic (strength U).  Typed operations (push/pop/get/set) exist for the kinds
+ * precondition (strength X over kinds); lengths, capacities, indices, values and store contents are
+ * full-domain symbolic (strength U).  The element size of STRUCT arrays is a further, incomplete case split
+ * (-DVERIF_ESZ / -DVERIF_SSZ, see DYN_ESZ_OK): those obligations are labelled bounded.  Typed operations (push/pop/get/set) exist for the kinds
  * int, u8, float, bool, string, array; kind-generic operations (remove_at, clear, reserve, clone,
  * new, new_with_capacity, *_struct) are instantiated for all 8 kinds.
  *
@@ -173,8 +174,14 @@ extern uint64_t __verif_kb;   /* unsigned: offset arithmetic on it wraps instead
 /* C08 clauses that the unchanged tree is not expected to meet are only part of the C08 obligations */
 #ifdef VERIF_C08
 #define DYN_C08_ENSURES(c) __CPROVER_ensures(c)
+/* pop_* report an empty array through *success (that is their API); every caller in the tree passes a flag
+ * (transpiler templates, stdlib_runtime).  What C08 demands of the runtime function: an empty array is never
+ * popped silently - the caller is told.  That the generated expression then stops the program (commit f888f75)
+ * is template text, outside this unit (undecided_part). */
+#define DYN_C08_POP __CPROVER_requires(success != NULL) __CPROVER_ensures(__CPROVER_old(arr->length) > 0 || *success == false)
 #else
 #define DYN_C08_ENSURES(c)
+#define DYN_C08_POP
 #endif
 
 /* ===================== typed operations ===================== */
@@ -224,7 +231,7 @@ __CPROVER_requires(DYN_WF_PRE(arr))
 __CPROVER_requires(success == NULL || VERIF_FRESH(success, sizeof(bool)))
 __CPROVER_requires(__verif_dyn.exited == 0)
 __CPROVER_assigns(__verif_dyn; arr->length; success != NULL: *success)
-DYN_C08_ENSURES(__CPROVER_old(arr->length) > 0)
+DYN_C08_POP
 __CPROVER_ensures(DYN_SAME_STORE(arr))
 __CPROVER_ensures(__CPROVER_old(arr->length) > 0 ==>
                   (arr->length == __CPROVER_old(arr->length) - 1 && (success == NULL || *success == true) &&
@@ -449,7 +456,7 @@ __CPROVER_requires(DYN_WF_PRE(arr))
 __CPROVER_requires(DYN_SSZ_RANGE(struct_size) && VERIF_FRESH(out_struct, struct_size))
 __CPROVER_requires(success == NULL || VERIF_FRESH(success, sizeof(bool)))
 __CPROVER_assigns(arr->length; __CPROVER_object_whole(out_struct); success != NULL: *success)
-DYN_C08_ENSURES(__CPROVER_old(arr->length) > 0)
+DYN_C08_POP
 __CPROVER_ensures(DYN_SAME_STORE(arr) && arr->elem_size == struct_size)
 __CPROVER_ensures(__CPROVER_old(arr->length) > 0 ==>
                   (arr->length == __CPROVER_old(arr->length) - 1 && (success == NULL || *success == true)))
